@@ -3,7 +3,8 @@ temporaryExtend, insert / replace, FineContour machinery and Equilibrium.wallInt
 flux surface of psi(R, Z) = R, crossed by a rectangular wall, for initial configurations enumerated by TLC.
 
 usage: contour_wall.py <configs.json> <out.json>
-config: {"id", "pts": [...], "sI", "eI", "lw", "uw", "wlo", "whi", "radius"}   positions in units of U metres
+config: {"id", "pts": [...], "sI", "eI", "lw", "uw", "wlo", "whi", "tlo", "thi", "radius"}   positions in units of U metres
+        (tlo / thi > 0: the wall at that end is a plate of that thickness, the surface re-enters the vessel behind it)
 out:    {"id", "raised": 0|1, "exc", "pts": [...] (quantised at 1/100 unit), "sI", "eI"}"""
 import json
 import sys
@@ -34,8 +35,15 @@ def f_Z(R, Z):
 class EqStub(Equilibrium):
     """only what _find_intersection uses: the closed wall polygon (Equilibrium.wallIntersection is the real method) and psi"""
 
-    def __init__(self, zlo, zhi):
-        w = [(R0 - 0.5, zlo), (R0 + 0.5, zlo), (R0 + 0.5, zhi), (R0 - 0.5, zhi)]
+    def __init__(self, zlo, zhi, tlo=0.0, thi=0.0):
+        # a rectangle; where the wall is a plate of thickness t (a baffle) the vessel continues behind it: the rectangle extends far beyond and a
+        # notch of thickness t enters from the inboard side across the flux surface R = R0
+        far = 50.0
+        w = [(R0 - 0.5, -far if tlo > 0 else zlo), (R0 + 0.5, -far if tlo > 0 else zlo), (R0 + 0.5, far if thi > 0 else zhi), (R0 - 0.5, far if thi > 0 else zhi)]
+        if thi > 0:
+            w += [(R0 - 0.5, zhi + thi), (R0 + 0.25, zhi + thi), (R0 + 0.25, zhi), (R0 - 0.5, zhi)]
+        if tlo > 0:
+            w += [(R0 - 0.5, zlo), (R0 + 0.25, zlo), (R0 + 0.25, zlo - tlo), (R0 - 0.5, zlo - tlo)]
         self.wall = [Point2D(*p) for p in w]
         self.closed_wallarray = np.array(w + [w[0]])
         self.psi = psi
@@ -49,7 +57,7 @@ class _ER:
 
 def run(cfg):
     lw, uw = bool(cfg["lw"]), bool(cfg["uw"])
-    eq = EqStub(cfg["wlo"] * U if lw else -50.0, cfg["whi"] * U if uw else 50.0)
+    eq = EqStub(cfg["wlo"] * U if lw else -50.0, cfg["whi"] * U if uw else 50.0, cfg.get("tlo", 0) * U if lw else 0.0, cfg.get("thi", 0) * U if uw else 0.0)
     c = PsiContour(points=[Point2D(R0, p * U) for p in cfg["pts"]], psival=R0, settings={}, Rrange=(0.1, 3.0), Zrange=(-60.0, 60.0))
     c.startInd, c.endInd = cfg["sI"], cfg["eI"]
     c.extend_lower, c.extend_upper = cfg.get("extlo", 0), cfg.get("exthi", 0)
